@@ -20,15 +20,10 @@ open Pilota Pilota.Thrift Pilota.TGen
 /-- "byte for byte": skipping an unknown field of any well-typed value `v` (nesting within the depth
 budget; no limit under the unchecked codec) consumes exactly `Binary.enc e v`, and the retained
 chunk denotes exactly `v`, so re-emitting it writes exactly the bytes that were skipped. -/
-theorem retained_chunk_exact (e : Endian) (dp : Option Nat) (v : TVal) (hw : v.wt = true) (hd : admits dp v.need) (r : Bytes) :
+theorem retained_chunk_exact (e : Endian) (dp : Option Nat) (hed : EndianOk e dp) (v : TVal) (hw : v.wt = true) (hd : admits dp v.need) (r : Bytes) :
     skipKeep e dp v.ttype (Binary.enc e v ++ r) = .ok (v, r) := by
   unfold skipKeep
-  have hs : (binRd e dp).skip v.ttype (Binary.enc e v ++ r) = .ok r := by
-    show skipBin e _ dp v.ttype (Binary.enc e v ++ r) = .ok r
-    apply skipBin_enc e v hw _ _ dp hd
-    have := Binary.size_le e v hw
-    simp only [List.length_append]; omega
-  rw [hs]
+  rw [binRd_skip_enc e dp hed v hw hd r]
   have hr := Pilota.Props.C01.binary_roundtrip e v hw r
   rw [Binary.run_ops] at hr
   rw [hr]
@@ -37,7 +32,7 @@ theorem retained_chunk_exact (e : Endian) (dp : Option Nat) (v : TVal) (hw : v.w
 retained list (after everything retained before it: wire order) and nothing else changes. -/
 theorem unknown_field_retained (e : Endian) (dp : Option Nat) (d : Doc) (f : Nat) (fs : List Field)
     (slots unk : List (Int × TVal)) (s : Bytes) (id : Int) (v : TVal) (r : Bytes)
-    (hw : v.wt = true) (hd : admits dp v.need)
+    (hed : EndianOk e dp) (hw : v.wt = true) (hd : admits dp v.need)
     (hb : (binRd e dp).fieldBegin s = .ok ((v.ttype, id), Binary.enc e v ++ r))
     (hunk : ∀ fl ∈ fs, fl.id ≠ id) :
     decFieldsK e dp d (f + 1) fs slots unk s = decFieldsK e dp d f fs slots (unk ++ [(id, v)]) r := by
@@ -47,7 +42,7 @@ theorem unknown_field_retained (e : Endian) (dp : Option Nat) (d : Doc) (f : Nat
   have : fs.find? (fun fl => fl.id == id && d.ttype fl.ty == v.ttype) = none := by
     rw [List.find?_eq_none]; intro fl hfl; simp [hunk fl hfl]
   rw [this]
-  simp only [retained_chunk_exact e dp v hw hd r]
+  simp only [retained_chunk_exact e dp hed v hw hd r]
 
 /-- a struct decoded with retention re-encodes as its known fields (declaration order, defaults
 filled as without retention) followed by the retained chunks. -/
@@ -60,23 +55,23 @@ theorem struct_known_then_retained (e : Endian) (dp : Option Nat) (d : Doc) (f :
 /-- what the code does (known finding D31): with retention a union that already decoded a known
 variant rejects a following unknown field, although the plain decoder skips it. -/
 theorem union_known_then_unknown_is_error (e : Endian) (dp : Option Nat) (d : Doc) (f : Nat) (vs : List (Int × STy))
-    (ret : Int × TVal) (s : Bytes) (id : Int) (v : TVal) (r : Bytes) (hw : v.wt = true) (hd : admits dp v.need)
+    (ret : Int × TVal) (s : Bytes) (id : Int) (v : TVal) (r : Bytes) (hed : EndianOk e dp) (hw : v.wt = true) (hd : admits dp v.need)
     (hb : (binRd e dp).fieldBegin s = .ok ((v.ttype, id), Binary.enc e v ++ r))
     (hk : vs.find? (fun x => x.1 == id && !(x.2 == .void)) = none) :
     decUnionK e dp d (f + 1) vs (some ret) s = .err .invalid := by
   rw [decUnionK, hb]
   have hns : v.ttype ≠ .stop := Binary.ttype_isValue_ne_stop _ (Binary.val_ttype_isValue v)
-  simp [hns, hk, retained_chunk_exact e dp v hw hd r]
+  simp [hns, hk, retained_chunk_exact e dp hed v hw hd r]
 
 /-- a union that receives a single unknown field retains it. -/
 theorem union_single_unknown_retained (e : Endian) (dp : Option Nat) (d : Doc) (f : Nat) (vs : List (Int × STy))
-    (s : Bytes) (id : Int) (v : TVal) (r : Bytes) (hw : v.wt = true) (hd : admits dp v.need)
+    (s : Bytes) (id : Int) (v : TVal) (r : Bytes) (hed : EndianOk e dp) (hw : v.wt = true) (hd : admits dp v.need)
     (hb : (binRd e dp).fieldBegin s = .ok ((v.ttype, id), Binary.enc e v ++ r))
     (hk : vs.find? (fun x => x.1 == id && !(x.2 == .void)) = none) :
     decUnionK e dp d (f + 1) vs none s = decUnionK e dp d f vs (some (id, v)) r := by
   rw [decUnionK, hb]
   have hns : v.ttype ≠ .stop := Binary.ttype_isValue_ne_stop _ (Binary.val_ttype_isValue v)
-  simp [hns, hk, retained_chunk_exact e dp v hw hd r]
+  simp [hns, hk, retained_chunk_exact e dp hed v hw hd r]
 
 /-! non-vacuity: an unknown field holding a nested container, within the default budget of 64 -/
 def unk : TVal := .map .i32 .list (.cons (.i32 7) (.list .binary (.cons (.bin [1, 2]) .nil)) .nil)
